@@ -1081,6 +1081,8 @@ pub mod __macro_support {
         #[cold]
         pub fn register(&'static self) -> Interest {
             // Attempt to advance the registration state to `REGISTERING`...
+            #[cfg(all(tracing_verif, feature = "std"))]
+            tracing_core::__verif::yield_point(61);
             match self.register.compare_exchange(
                 Self::UNREGISTERED,
                 Self::REGISTERING,
@@ -1090,6 +1092,8 @@ pub mod __macro_support {
                 Ok(_) => {
                     // Okay, we advanced the state, try to register the callsite.
                     crate::callsite::register(self.registration);
+                    #[cfg(all(tracing_verif, feature = "std"))]
+                    tracing_core::__verif::yield_point(62);
                     self.register.store(Self::REGISTERED, Ordering::Release);
                 }
                 // Great, the callsite is already registered! Just load its
@@ -1107,6 +1111,8 @@ pub mod __macro_support {
                 }
             }
 
+            #[cfg(all(tracing_verif, feature = "std"))]
+            tracing_core::__verif::yield_point(63);
             match self.interest.load(Ordering::Relaxed) {
                 Self::INTEREST_NEVER => Interest::never(),
                 Self::INTEREST_ALWAYS => Interest::always(),
@@ -1125,6 +1131,8 @@ pub mod __macro_support {
         /// without warning.
         #[inline]
         pub fn interest(&'static self) -> Interest {
+            #[cfg(all(tracing_verif, feature = "std"))]
+            tracing_core::__verif::yield_point(60);
             match self.interest.load(Ordering::Relaxed) {
                 Self::INTEREST_NEVER => Interest::never(),
                 Self::INTEREST_SOMETIMES => Interest::sometimes(),
@@ -1134,6 +1142,8 @@ pub mod __macro_support {
         }
 
         pub fn is_enabled(&self, interest: Interest) -> bool {
+            #[cfg(all(tracing_verif, feature = "std"))]
+            tracing_core::__verif::yield_point(64);
             interest.is_always()
                 || crate::dispatch::get_default(|default| default.enabled(self.meta))
         }
